@@ -80,3 +80,16 @@ Definition handler (ae cenc : bytes) (has_clen has_rule : bool) (cmd : Z) : hres
   else if cmd =? 1 then
     if has_token ae BR then {| h_cenc := BR; h_has_clen := false; h_wrapped := 2 |} else same
   else same.
+
+(* ---- the rule file loader (compress_rule_load.go, action.go ActionFileCheck) in front of the handler:
+   a rule {Cmd, Quality, FlushSize} loads iff Cmd is exactly "GZIP" (Quality in [-2, 9]) or "BROTLI" (Quality in [0, 11])
+   and FlushSize is in [64, 4096]; a file that fails to load leaves the product without rules *)
+Definition CMD_GZIP : bytes := [71; 90; 73; 80].
+Definition CMD_BROTLI : bytes := [66; 82; 79; 84; 76; 73].
+Definition cmd_id (cmd : bytes) : Z := if bytes_eqb cmd CMD_GZIP then 0 else if bytes_eqb cmd CMD_BROTLI then 1 else 2.
+Definition action_ok (cmd : bytes) (quality flush : Z) : bool :=
+  ((bytes_eqb cmd CMD_GZIP && (-2 <=? quality) && (quality <=? 9))
+   || (bytes_eqb cmd CMD_BROTLI && (0 <=? quality) && (quality <=? 11)))
+  && (64 <=? flush) && (flush <=? 4096).
+Definition load_handler (cmd : bytes) (quality flush : Z) (ae cenc : bytes) (has_clen : bool) : bool * hres :=
+  let ok := action_ok cmd quality flush in (ok, handler ae cenc has_clen ok (cmd_id cmd)).
